@@ -264,7 +264,7 @@ def _backtrack_line_search(X, y, w, Xw, fit_intercept, datafit, penalty, delta_w
     n_features_ws = sum([grp_ptr[g+1] - grp_ptr[g] for g in ws])
 
     # TODO: could be improved by passing in w[ws]
-    old_penalty_val = penalty.value(w)
+    old_penalty_val = penalty.value(w[:n_features])
 
     # try step = 1, 1/2, 1/4, ...
     for _ in range(MAX_BACKTRACK_ITER):
@@ -283,7 +283,7 @@ def _backtrack_line_search(X, y, w, Xw, fit_intercept, datafit, penalty, delta_w
         grad_ws = _construct_grad(X, y, w[:n_features], Xw, datafit, ws)
 
         # TODO: could be improved by passing in w[ws]
-        stop_crit = penalty.value(w[:-1]) - old_penalty_val
+        stop_crit = penalty.value(w[:n_features]) - old_penalty_val
         stop_crit += step * grad_ws @ delta_w_ws[:n_features_ws]
 
         if fit_intercept:
